@@ -2,6 +2,7 @@ package props
 
 import (
 	"fmt"
+	"strings"
 	"testing"
 
 	"pgregory.net/rapid"
@@ -375,4 +376,189 @@ func init() {
 		}
 		return c20Verdict(ex.X.V, ex.Y.V, ex.Z.V, doCall(r.Calls[0]), ex.XComputed)
 	}
+}
+
+// ---------------------------------------------------------------------------
+// Filters: one truthiness rule, one equality, whatever the shape of the
+// predicate and whatever the elements are.
+
+var c20Elems = []string{`null`, `false`, `true`, `0`, `1`, `""`, `"s"`, `"a"`, `[]`, `[0]`, `[1,2]`, `{}`, `{"a":null}`, `{"a":false}`, `{"a":true}`, `{"a":0}`, `{"a":1}`, `{"a":1.0,"b":"1"}`, `{"a":""}`, `{"a":"s"}`,
+	`{"a":[]}`, `{"a":{}}`, `{"a":[1],"b":[1]}`, `{"b":2}`, `{"a":1,"b":1}`, `{"a":{"b":1}}`, `{"a":{"b":null},"b":null}`, `{"b":false}`}
+
+var c20Operands = []string{"a", "b", "@", "@.a", "a.b", "`null`", "`true`", "`false`", "`0`", "`1`", "`1.0`", "'s'", "''", "`[]`", "`{}`", "`[1]`", "`\"s\"`", "type(@)", "'object'", "'null'", "`{\"b\":1}`", "[a]", "{b: b}", "not_null(a, b)"}
+
+// c20Pred draws a predicate text and texts that must select the same elements.
+func c20Pred(t *rapid.T, depth int) (string, []string) {
+	operand := func(label string) string { return gen.Pick(t, label, c20Operands) }
+	switch k := rapid.IntRange(0, 9).Draw(t, "predkind"); {
+	case k <= 4:
+		l, r := operand("l"), operand("r")
+		op := gen.Pick(t, "op", []string{"==", "==", "!=", "!=", "<", "<=", ">", ">="})
+		p := l + " " + op + " " + r
+		var eq []string
+		switch op {
+		case "==":
+			eq = []string{r + " == " + l, "!(" + l + " != " + r + ")", r + "==" + l}
+		case "!=":
+			eq = []string{r + " != " + l, "!(" + l + " == " + r + ")"}
+		case "<":
+			eq = []string{r + " > " + l}
+		case "<=":
+			eq = []string{r + " >= " + l}
+		case ">":
+			eq = []string{r + " < " + l}
+		default:
+			eq = []string{r + " <= " + l}
+		}
+		return p, eq
+	case k == 5:
+		o := operand("alone")
+		return o, []string{"!(!(" + o + "))", o + " && " + o, o + " || " + o}
+	case k == 6:
+		o := operand("negated")
+		return "!" + o, []string{"!(" + o + ")", "!(!(!" + o + "))", o + " == `false` || " + o + " == `null` || " + o + " == '' || " + o + " == `[]` || " + o + " == `{}`"}
+	case depth < 2:
+		p1, _ := c20Pred(t, depth+1)
+		p2, _ := c20Pred(t, depth+1)
+		if rapid.Bool().Draw(t, "conj") {
+			return "(" + p1 + ") && (" + p2 + ")", []string{"(" + p2 + ") && (" + p1 + ")", "!(!(" + p1 + ") || !(" + p2 + "))"}
+		}
+		return "(" + p1 + ") || (" + p2 + ")", []string{"(" + p2 + ") || (" + p1 + ")", "!(!(" + p1 + ") && !(" + p2 + "))"}
+	}
+	o := operand("deep")
+	return o, []string{"!(!(" + o + "))"}
+}
+
+func c20FiltersVerdict(want map[string]jv.Val, out run.Outcome) string {
+	if out.Panic != "" {
+		return "library panicked: " + out.Panic
+	}
+	if out.Failed {
+		return "unexpected error: " + out.String()
+	}
+	for _, k := range []string{"", "f", "g", "h", "m", "n", "s", "i", "r"} {
+		w, ok := want[k]
+		if !ok {
+			continue
+		}
+		got := out.Val
+		if k != "" {
+			got, _ = out.Val.Get(k)
+		}
+		if !jv.Equal(got, w) {
+			return fmt.Sprintf("%s: got %s, want %s", map[string]string{"": "the filter", "f": "x[?p]", "g": "x[?q]", "h": "x | [?p]", "m": "map(&p, x)", "n": "length(x[?p])", "s": "x[?p].[@]", "i": "x[?p] | [0]", "r": "(x)[? p ]"}[k], got.JSON(), w.JSON())
+		}
+	}
+	return ""
+}
+
+func init() {
+	customReplays["custom:c20-filters"] = func(r run.Replay) string {
+		var ex struct {
+			Want map[string]run.EncVal `json:"want"`
+		}
+		if err := jsonUnmarshal(r.Extra, &ex); err != nil || len(r.Calls) == 0 {
+			return "malformed replay"
+		}
+		want := map[string]jv.Val{}
+		for k, v := range ex.Want {
+			want[k] = v.V
+		}
+		return c20FiltersVerdict(want, doCall(r.Calls[0]))
+	}
+}
+
+// C20: filter predicates use the one truthiness rule and the one equality:
+// arr[?p] keeps exactly the elements for which p is true-like, whatever the
+// shape of p, the kinds of the elements, or the spelling of the filter.
+func TestC20_Filters(t *testing.T) {
+	c := collector("C20", "filters")
+	check(t, func(t *rapid.T) {
+		n := rapid.IntRange(0, 6).Draw(t, "len")
+		arr := make([]jv.Val, n)
+		for i := range arr {
+			arr[i] = jv.MustParseJSON(gen.Pick(t, "elem", c20Elems))
+		}
+		p, equivalents := c20Pred(t, 0)
+		q := gen.Pick(t, "equivalent", equivalents)
+		c.Case()
+		pp, pq := ast.Parse(p), ast.Parse(q)
+		if pp.Verdict != ast.In || pq.Verdict != ast.In {
+			if pp.Verdict == ast.Out || pq.Verdict == ast.Out {
+				t.Fatalf("HARNESS-BUG: predicate %q / %q does not parse: %s %s", p, q, pp.Reason, pq.Reason)
+			}
+			c.Skip("reference-parser-undetermined")
+			return
+		}
+		X := "x"
+		doc := jv.VObj([]jv.Member{{K: "x", V: jv.VArr(arr)}, {K: "a", V: jv.VInt(1)}})
+		if rapid.IntRange(0, 3).Draw(t, "literalarray") == 0 {
+			X = "`" + strings.ReplaceAll(jv.VArr(arr).JSON(), "`", "\\`") + "`"
+		}
+		// the value of the predicate for each element, by the reference
+		// interpreter; the truthiness rule decides what is kept
+		var kept, vals, wrapped []jv.Val
+		for _, e := range arr {
+			r := model.EvalAt(pp.Expr, e, doc)
+			if r.Undet != "" {
+				c.Skip(r.Undet)
+				return
+			}
+			if !r.IsValue() {
+				c.Skip("predicate-fails-on-an-element")
+				return
+			}
+			r2 := model.EvalAt(pq.Expr, e, doc)
+			if r2.Undet != "" {
+				c.Skip(r2.Undet)
+				return
+			}
+			if !r2.IsValue() || r2.V.Truthy() != r.V.Truthy() {
+				t.Fatalf("HARNESS-BUG: %q and %q are not equivalent on %s", p, q, e.JSON())
+			}
+			vals = append(vals, r.V)
+			// (a filter is a projection: a null element never appears in its
+			// result, whatever the predicate says - section 3.3)
+			if r.V.Truthy() && e.K != jv.Null {
+				kept = append(kept, e)
+				wrapped = append(wrapped, jv.VArr([]jv.Val{e}))
+			}
+		}
+		first := jv.VNull()
+		if len(kept) > 0 {
+			first = kept[0]
+		}
+		want := map[string]jv.Val{"f": jv.VArr(kept), "g": jv.VArr(kept), "h": jv.VArr(kept), "m": jv.VArr(vals), "n": jv.VInt(int64(len(kept))), "s": jv.VArr(wrapped), "i": first, "r": jv.VArr(kept)}
+		text := "{f: " + X + "[?" + p + "], g: " + X + "[?" + q + "], h: " + X + " | [?" + p + "], m: map(&(" + p + "), " + X + "), n: length(" + X + "[?" + p + "]), s: " + X + "[?" + p + "].[@], i: " + X + "[?" + p + "] | [0], r: (" + X + ")[? " + p + " ]}"
+		if rapid.IntRange(0, 3).Draw(t, "single") == 0 {
+			// the filter alone, as the whole expression
+			k := gen.Pick(t, "which", []string{"f", "g", "h", "r"})
+			text = map[string]string{"f": X + "[?" + p + "]", "g": X + "[?" + q + "]", "h": X + " | [?" + p + "]", "r": X + "[*] | [?" + p + "]"}[k]
+			want = map[string]jv.Val{"": jv.VArr(kept)}
+		}
+		node := run.FromVal(doc)
+		call := run.Call{API: "search", Expr: text, Doc: &node}
+		run.Watch(c, "filters", call)
+		out := run.Search(text, node.Build())
+		msg := c20FiltersVerdict(want, out)
+		if msg != "" {
+			msg += fmt.Sprintf(" (predicate %s, equivalent %s, array %s)", p, q, jv.VArr(arr).JSON())
+			enc := map[string]run.EncVal{}
+			for k, v := range want {
+				enc[k] = run.EncVal{V: v}
+			}
+			c.Fail(t, run.Replay{Check: "filters", Kind: "custom:c20-filters", Calls: []run.Call{call}, Message: msg, Extra: mustJSON(map[string]any{"want": enc})}, msg[:minInt(len(msg), 12)])
+			return
+		}
+		kinds := map[jv.Kind]bool{}
+		for _, e := range arr {
+			kinds[e.K] = true
+		}
+		c.Label(fmt.Sprintf("kept-%d-of-%d", minInt(len(kept), 3), minInt(n, 3)))
+		if len(kinds) >= 2 && len(kept) > 0 && len(kept) < n {
+			c.NonTrivial(p+"\x00"+jv.VArr(arr).JSON(), func() any {
+				return map[string]any{"predicate": p, "equivalent": q, "array": jv.VArr(arr).JSON(), "kept": jv.VArr(kept).JSON()}
+			})
+		}
+	})
 }
